@@ -109,6 +109,9 @@ def _gen_slice_items(r, info):
         elif x < 0.5:
             a, b = gen_range(r, cur_n if level == 0 else inner)
             step = r.choice([None, None, 1, 2, -1, -2, 3])
+            if r.random() < 0.04:
+                # steps that do not fit 32 bits, or whose multiples do not fit 64 (a[::2**40] is the first item)
+                step = r.choice([2**31, 2**32, 2**32 + 1, 2**40, 2**62 + 1, 2**63 - 2, -(2**32), -(2**62) - 1, -(2**63) + 1])
             items.append({"k": "range", "start": a, "stop": b, "step": step})
         elif x < 0.55 and not used_ellipsis:
             items.append({"k": "ellipsis"})
